@@ -316,7 +316,7 @@ func (c *vRelayConn) isGone() bool {
 
 // vRelay is an HTTP server whose every path upgrades to WebSocket. The path
 // is "/<key>/<mode>": key attributes the connection to a harness session,
-// mode is echo | close-now | close-after-first.
+// mode is echo | close-now | close-after-first | stream.
 type vRelay struct {
 	ln      net.Listener
 	host    string
@@ -424,6 +424,18 @@ func (r *vRelay) serve(w http.ResponseWriter, req *http.Request) {
 		}
 		if mode == "close-after-first" {
 			return
+		}
+		if mode == "stream" {
+			// after the client's first message: a never-ending download
+			chunk := make([]byte, 1200)
+			for {
+				c.wmu.Lock()
+				err = ws.WriteMessage(websocket.BinaryMessage, chunk)
+				c.wmu.Unlock()
+				if err != nil {
+					return
+				}
+			}
 		}
 		c.wmu.Lock()
 		err = ws.WriteMessage(mt, data)
